@@ -72,6 +72,27 @@ end X
 
 def xOps (rnd : Rat → Rat) : FOps X := ⟨.fin 0, X.absdiff rnd, X.gt, X.lt⟩
 
+/-! ### round 5: overflow of a finite difference
+
+`|a - b|` of two finite doubles is `+inf` when its rounded value (exponent range unbounded
+upwards, as `rnd64`) reaches `2^1024`.  `xOpsO rnd` is `xOps rnd` with that overflow; the driver
+executes the generated kernels at `xOpsO rnd64`.  `Properties/C08.lean` (`overflow_free_*`) proves
+that the two structures give the same kernels whenever no coordinate difference overflows — always
+for the embeddings of the class (float32-born) — so the theorems stated at `xOps rnd` transfer. -/
+
+/-- `2^1024`: the first magnitude that is not a finite double -/
+def ovfBound : Rat := ((2 ^ 1024 : Nat) : Rat)
+
+/-- overflow of a rounded result to `+inf` -/
+def X.ovf : X → X
+  | .fin q => if ovfBound ≤ q then .pinf else .fin q
+  | x => x
+
+/-- `abs(a - b)` with overflow -/
+def X.absdiffO (rnd : Rat → Rat) (a b : X) : X := X.ovf (X.absdiff rnd a b)
+
+def xOpsO (rnd : Rat → Rat) : FOps X := ⟨.fin 0, X.absdiffO rnd, X.gt, X.lt⟩
+
 /-- C07's values inside the doubles -/
 def toX : V → X
   | some q => .fin q
